@@ -355,8 +355,13 @@ def norm_bool(ev):
     """(expr, truth) of a boolean cond with leading negations folded into the truth value."""
     t = cond_truth(ev)
     e = ev['expr']
-    while t is not None and e[0] == 'unop' and e[1] == 'Not':
-        e, t = e[2], not t
+    while t is not None:
+        if e[0] == 'unop' and e[1] == 'Not':
+            e, t = e[2], not t
+        elif e[0] == 'loopvar' and len(e) > 5:
+            e = e[5]        # a flag variable: what the previous iteration of this path assigned to it
+        else:
+            break
     return e, t
 
 
@@ -595,10 +600,19 @@ def direct_target_is(facts, path, upto, who):
     spelled inline (the is_some_and / is_probing spellings are handled by the callers).  True / False / None."""
     calls = {c['id']: c for c in path.calls()}
     direct = None
+    payloads = []
     for c in path.calls():
         if c['res'] == 'core::option::Option::as_ref' and c['args'][0][0] == 'ref' and \
                 field_path(c['args'][0][1])[1][-1:] == ['direct']:
             direct = ('call', c['id'])
+    if direct is None:
+        # `match &self.direct { Some(m) => .., None => .. }` / `if let Some(m) = &self.direct`: the field itself is tested
+        for c in conds_before(path, upto):
+            e = c['expr']
+            if e[0] == 'discr' and e[1][0] == 'load' and field_path(e[1][1])[1][-1:] == ['direct'] and \
+                    not any(w['kind'] == 'write' and field_path(w['place'])[1][-1:] == ['direct'] for w in path.events[:upto]):
+                direct = e[1]
+                payloads.append(('field', e[1][1], '0', 'Some'))
     if direct is None:
         return None
     st = option_known(facts, path, upto, direct)
@@ -606,7 +620,7 @@ def direct_target_is(facts, path, upto, who):
         return False
     if st != 'Some':
         return None
-    payload = ('fieldv', direct, '0', 'Some')
+    payloads.append(('fieldv', direct, '0', 'Some'))
     out = None
     for c in conds_before(path, upto):
         e, t = norm_bool(c)
@@ -615,8 +629,8 @@ def direct_target_is(facts, path, upto, who):
             continue
         sides = [es[1], es[2]]
         is_id = lambda v: (v[0] == 'call' and v[1] in calls and calls[v[1]]['res'] == 'member::Member::id' and
-                           mentions(calls[v[1]]['args'][0], lambda y: y == payload)) or \
-                          (v[0] == 'load' and field_path(v[1])[1][-1:] == ['id'] and mentions(v, lambda y: y == payload))
+                           mentions(calls[v[1]]['args'][0], lambda y: y in payloads)) or \
+                          (v[0] == 'load' and field_path(v[1])[1][-1:] == ['id'] and mentions(v, lambda y: y in payloads))
         is_who = lambda v: is_param(v, who) or v == ('load', ('deref', ('param', 0, who)), 0)
         if (is_id(sides[0]) and is_who(sides[1])) or (is_id(sides[1]) and is_who(sides[0])):
             out = (t == es[0])
@@ -634,3 +648,106 @@ def field_of(v, name):
         if x is not None:
             return x
     return ('fieldv', v, name, None)
+
+
+MIN_FNS = ('core::cmp::Ord::min', 'core::cmp::min')
+
+
+def bounded_by(path, v, bound):
+    """The value is provably <= bound on this path: a constant, a min(.., k) with k <= bound in either spelling
+    (method or free function), or a value the path has compared against a constant <= bound."""
+    calls = {c['id']: c for c in path.calls()}
+    w = peel(v)
+    if w[0] == 'const' and w[2] is not None:
+        return w[2] <= bound
+    if w[0] == 'call' and w[1] in calls and calls[w[1]]['res'] in MIN_FNS:
+        if any(peel(a)[0] == 'const' and peel(a)[2] is not None and peel(a)[2] <= bound for a in calls[w[1]]['args']):
+            return True
+    for c in path.conds():
+        hi = at_most(c, lambda t: peel(t) == w)
+        if hi is not None and hi[1] <= bound:
+            return True
+    return False
+
+
+def emptiness_value(v, is_len, is_empty_call):
+    """For a boolean VALUE (not a branch): True if it is equivalent to "the collection is empty", False if to "it is
+    not empty", None otherwise - `c.is_empty()`, `c.len() == 0`, `!(c.len() > 0)`, `c.len() < 1`, ... in any spelling."""
+    neg = False
+    while v[0] == 'unop' and v[1] == 'Not':
+        v, neg = v[2], not neg
+    res = None
+    if is_empty_call(v):
+        res = True
+    elif v[0] == 'binop' and v[1] in ('Eq', 'Ne', 'Gt', 'Ge', 'Lt', 'Le'):
+        op, a, b = v[1], peel(v[2]), peel(v[3])
+        if is_len(b) and a[0] == 'const':
+            a, b = b, a
+            op = {'Gt': 'Lt', 'Ge': 'Le', 'Lt': 'Gt', 'Le': 'Ge', 'Eq': 'Eq', 'Ne': 'Ne'}[op]
+        if is_len(a) and b[0] == 'const' and b[2] is not None:
+            k = b[2]
+            res = {('Eq', 0): True, ('Ne', 0): False, ('Gt', 0): False, ('Ge', 1): False, ('Le', 0): True,
+                   ('Lt', 1): True}.get((op, k))
+    if res is None:
+        return None
+    return res != neg
+
+
+def exists_loop(facts, paths, over_place, pred):
+    """Does a bool function compute `over_place.iter().any(pred)` as an explicit loop?  Every returning path is cut
+    into iterations at the `next()` calls of a slice iterator over `over_place`; `pred(path, events, item)` gives the
+    truth of the predicate in one iteration (None = cannot tell).  Required: `true` is returned exactly at the end of
+    an iteration whose predicate holds, the loop goes on exactly when it does not, and `false` is returned exactly
+    when the iterator is exhausted.  Returns (ok, number of iterations judged)."""
+    n = 0
+    for p in paths:
+        if p.end != 'return':
+            continue
+        calls = {c['id']: c for c in p.calls()}
+        src = [c for c in p.calls() if c['res'].endswith('::deref') and c['args'][0][:2] == ('ref', over_place)]
+        its = [c for c in p.calls() if c['res'] == 'core::slice::<impl [T]>::iter']
+        if not its or not (its[0]['args'][0] == ('ref', over_place, False) or
+                           (src and its[0]['args'][0] == ('ref', ('deref', ('call', src[0]['id'])), False))):
+            return False, n
+        idx = [i for i, e in enumerate(p.events) if e['kind'] == 'call' and e['res'].endswith('Iterator>::next')]
+        if not idx:
+            return False, n
+        for k, i in enumerate(idx):
+            seg = p.events[i + 1:(idx[k + 1] if k + 1 < len(idx) else len(p.events))]
+            nxt = p.events[i]
+            d = [c for c in seg if c['kind'] == 'cond' and c['expr'][0] == 'discr' and c['expr'][1] == ('call', nxt['id'])]
+            if not d:
+                return False, n
+            last = k + 1 == len(idx)
+            some = cond_variants(facts, d[0]) == {'Some'}
+            if not some:
+                # exhausted: the function must return false here
+                if not (last and is_const(p.ret, 0)):
+                    return False, n
+                continue
+            item = ('fieldv', ('call', nxt['id']), '0', 'Some')
+            t = pred(p, seg, item)
+            n += 1
+            if t is None:
+                return False, n
+            if last:
+                if not (t is True and is_const(p.ret, 1)):
+                    return False, n
+            elif t is not False:
+                return False, n
+    return n > 0, n
+
+
+def takes_of(path, place):
+    """Events that move the value out of an Option place leaving None behind, whatever the spelling -
+    `place.take()`, `mem::take(&mut place)`, `mem::replace(&mut place, None)` - as (event, value obtained)."""
+    out = []
+    for e in path.events:
+        if e['kind'] == 'call' and e['res'] == 'core::option::Option::take' and e['args'][0] == ('ref', place, True):
+            out.append((e, ('call', e['id'])))
+        elif e['kind'] == 'write' and e['place'] == place and e.get('via') == 'mem::take':
+            out.append((e, e['old']))
+        elif e['kind'] == 'write' and e['place'] == place and e.get('via') == 'mem::replace' and \
+                (is_variant(e['value'], 'Option', 'None') or (e['value'][0] == 'agg' and e['value'][3] == 'None')):
+            out.append((e, e['old']))
+    return out
